@@ -344,3 +344,140 @@ def deref_at(fi, expr, depth=4):
         else:
             break
     return cur
+
+
+# ------------------------------------------------------------ seeing through refactorings
+def accumulated_comp(fi, name):
+    """If local `name` is built as `name = []` followed by one for-loop that appends to it (one append per iteration,
+    possibly one in each branch of an if/else), return the equivalent synthetic ListComp; else None.
+
+    `for v in it: name.append(e)`                      -> [e for v in it]
+    `for v in it: if c: name.append(a) else: name.append(b)` -> [a if c else b for v in it]
+    `for v in it: if c: name.append(a)`                -> [a for v in it if c]
+    """
+    inits = [s for s in walk_own(fi.node) if isinstance(s, ast.Assign) and any(is_name(t, name) for t in s.targets)]
+    if len(inits) != 1 or not (isinstance(inits[0].value, ast.List) and not inits[0].value.elts):
+        return None
+    loops = []
+    for lp in walk_own(fi.node):
+        if isinstance(lp, ast.For) and any(_appends_to(n, name) is not None for n in ast.walk(lp)):
+            if not any(lp is not o and any(x is lp for x in ast.walk(o)) for o in loops):
+                loops.append(lp)
+    loops = [l for l in loops if not any(l is not o and any(x is l for x in ast.walk(o)) for o in loops)]
+    others = [n for n in walk_own(fi.node) if _appends_to(n, name) is not None
+              and not any(any(x is n for x in ast.walk(l)) for l in loops)]
+    if len(loops) != 1 or others or loops[0].orelse:
+        return None
+    lp = loops[0]
+
+    def elt_of(stmts):
+        """-> (elt, cond) for a statement list that appends exactly once (cond None = always)"""
+        stmts = [s for s in stmts if not (isinstance(s, ast.Expr) and isinstance(s.value, ast.Constant))]
+        if len(stmts) != 1:
+            return None
+        s = stmts[0]
+        e = _appends_to(s, name) if isinstance(s, (ast.Expr, ast.AugAssign)) else None
+        if e is not None:
+            return e, None
+        if isinstance(s, ast.If):
+            a = elt_of(s.body)
+            if a is None or a[1] is not None:
+                return None
+            if not s.orelse:
+                return a[0], s.test
+            b = elt_of(s.orelse)
+            if b is None or b[1] is not None:
+                return None
+            return ast.IfExp(test=s.test, body=a[0], orelse=b[0]), None
+        return None
+    got = elt_of(lp.body)
+    if got is None:
+        return None
+    elt, cond = got
+    comp = ast.ListComp(elt=elt, generators=[ast.comprehension(target=lp.target, iter=lp.iter, ifs=[cond] if cond is not None else [],
+                                                               is_async=0)])
+    comp.lineno = lp.lineno
+    comp.col_offset = lp.col_offset
+    comp._synthetic_from = lp
+    return comp
+
+
+def _appends_to(node, name):
+    """The element appended to list `name` by this node (name.append(e) / name += [e]), else None."""
+    if isinstance(node, ast.Expr):
+        node = node.value
+    if isinstance(node, ast.Call) and isinstance(node.func, ast.Attribute) and node.func.attr == 'append' \
+            and is_name(node.func.value, name) and len(node.args) == 1:
+        return node.args[0]
+    if isinstance(node, ast.AugAssign) and is_name(node.target, name) and isinstance(node.op, ast.Add) \
+            and isinstance(node.value, ast.List) and len(node.value.elts) == 1:
+        return node.value.elts[0]
+    return None
+
+
+def value_of(fi, expr, depth=5):
+    """Follow plain locals (flow-sensitively) to their value; lists built by an accumulator loop become comprehensions."""
+    cur = expr
+    for _ in range(depth):
+        if not isinstance(cur, ast.Name):
+            break
+        acc = accumulated_comp(fi, cur.id)
+        if acc is not None:
+            return acc
+        nxt = deref(fi, cur, depth=1)
+        if nxt is cur:
+            try:
+                nxt = deref_at(fi, cur, depth=1) if getattr(cur, '_parent', None) is not None else cur
+            except Exception:
+                nxt = cur
+        if nxt is cur:
+            break
+        cur = nxt
+    return cur
+
+
+def expand_quantifier(e):
+    """any(P(v) for v in (a, b)) -> P(a) or P(b); all(...) -> and.  Other expressions are returned unchanged."""
+    if isinstance(e, ast.Call) and isinstance(e.func, ast.Name) and e.func.id in ('any', 'all') and len(e.args) == 1 \
+            and isinstance(e.args[0], (ast.GeneratorExp, ast.ListComp)) and len(e.args[0].generators) == 1:
+        g = e.args[0].generators[0]
+        if isinstance(g.iter, (ast.Tuple, ast.List)) and isinstance(g.target, ast.Name) and not g.ifs and g.iter.elts:
+            vals = [nf.subst(e.args[0].elt, {g.target.id: x}) for x in g.iter.elts]
+            return ast.BoolOp(op=ast.Or() if e.func.id == 'any' else ast.And(), values=vals)
+    return e
+
+
+def search_loops_to_conditions(stmts):
+    """Rewrite (on a clone) `for v in L: if P: break` + `else: S` into `if not any(P for v in L): S` (recursively)."""
+    from ..index import clone
+    out = []
+    for s in stmts:
+        s = clone(s)
+        if isinstance(s, ast.For) and s.orelse and len(s.body) == 1 and isinstance(s.body[0], ast.If) \
+                and not s.body[0].orelse and len(s.body[0].body) == 1 and isinstance(s.body[0].body[0], ast.Break):
+            q = ast.Call(func=ast.Name(id='any', ctx=ast.Load()),
+                         args=[ast.GeneratorExp(elt=s.body[0].test,
+                                                generators=[ast.comprehension(target=s.target, iter=s.iter, ifs=[], is_async=0)])],
+                         keywords=[])
+            new = ast.If(test=ast.UnaryOp(op=ast.Not(), operand=q), body=search_loops_to_conditions(s.orelse), orelse=[])
+            ast.copy_location(new, s)
+            ast.fix_missing_locations(new)
+            out.append(new)
+            continue
+        for field in ('body', 'orelse', 'finalbody'):
+            sub = getattr(s, field, None)
+            if isinstance(sub, list) and sub and isinstance(sub[0], ast.stmt):
+                setattr(s, field, search_loops_to_conditions(sub))
+        out.append(s)
+    return out
+
+
+def inline(fi, expr):
+    """expr with single-definition locals substituted (canonical)."""
+    return nf.canon(lib.inline_locals(expr, fi.node))
+
+
+def calls_unreviewed(idx, node):
+    """Names of unreviewed helpers (left un-inlined by the normaliser) that are called under `node`."""
+    names = {q.split('.')[-1] for q in getattr(idx, 'unreviewed', []) or []}
+    return sorted({nf.callee_name(c) for c in ast.walk(node) if isinstance(c, ast.Call) and nf.callee_name(c) in names})
